@@ -120,6 +120,24 @@ DESC = {
  "C15-6": ("field names: every non-ASCII-alphanumeric character replaced by `_` after snake-casing", "snake_case member names containing non-ASCII letters"),
  "C16-8": ("shape_name of an Array takes its `Optional` prefix from the element", "sibling objects differing only in whether an array member is nullable: one name, two bodies"),
  "C14-7": ("compile_json de-duplicates the path list before reading", "the same path listed twice where the second merge still matters (a union formed in between)"),
+ "C01-7": ("Tuple+Tuple flatten branch rewritten with one iterator: the Null variant is taken from the incoming tuple's optional flags only (round 6: multi-step)", "three sources: `[1,\"a\"]`, `[1,null]` (fold gives Tuple(Number, Option<String>)), then a tuple of another length / kind"),
+ "C03-5": ("TWO SITES: `insert_flat` keeps the optional flag of the accumulated element type; `Array ⊆ OneOf` drops the lookup of the optional spelling (each alone harmless)", "three sources: `[[1]]`, `[null]`, `[true,\"s\"]` — the merged shape rejects `[[1]]`"),
+ "C06-5": ("value path: homogeneous-array test uses `similar(..).is_some()` instead of `==` (ignores the top-level flag)", "an empty array next to an array of nulls inside one array: `[[],[null]]`"),
+ "C02-8": ("optional Tuple ⊆ Array sub-arm pattern `optional: true` became `..`", "shapes reached by two merge histories: Option<Tuple(Number,String)> vs Array<OneOf[Number|String]>"),
+ "C17-8": ("array-of-objects first pass collects the union of all later keys: a first-object key is optional only if absent from ALL later objects", "key in the first element, in some later element, missing from another: `[{\"a\":1},{\"a\":2},{}]`"),
+ "C13-7": ("create_subtype Array arm recurses only for Object / OneOf / Tuple element types ('fast path for arrays of scalars')", "Object > Array > Array > Object below the root: inner struct never defined (E0425)"),
+ "C13-8": ("create_object skips a struct when the rendered scope already contains `\"{name} {\"` — matches inside `OptionalStructN…`", "the same object content once optional and once required, the optional one emitted first"),
+ "C16-9": ("file written through OpenOptions without truncate", "call sequence small, large, small under one collection name: third file keeps a stale tail"),
+ "C16-10": ("sources read with `filter_map(read_to_string(..).ok())`", "a list mixing readable sources with an unreadable one returns Ok and writes a file"),
+ "C04-12": ("TWO SITES: lexer no longer rejects bare words in the Error-token callback; parse_member calls has_errors only when no value was found (each alone harmless)", "a bare word between the colon and the value of a member: `{\"a\": x 1}` accepted"),
+ "C05-10": ("check_string reused on unterminated strings (its `unreachable!` assumes a closing quote)", "text ending right after a backslash inside a string: `\"a\\`, `[1, \"a\\`, `{\"k\\` panic"),
+ "C07-8": ("member names without `\\u` unescaped by a chain of `str::replace` calls", "a name with an escaped backslash followed by one of `\" / b f n r t`: `{\"\\\\n\":1}` vs `{\"\\u005cn\":1}`"),
+ "C04-13": ("from_sources memoises parsed sources by `source.trim()` (Unicode blanks are not JSON whitespace)", "a valid source followed later by a twin that differs only by U+00A0 / U+000C / U+2028 padding"),
+ "C12-6": ("value path: all-objects branch converts lazily and the second walk re-converts every element but the first (2^depth)", "arrays of >=2 objects nested inside arrays of objects, the nested array not in the first object"),
+ "C12-7": ("is_subset optional-Object vs optional-Object arm recurses twice into common members (2^(d-1))", "optional objects nested in optional objects (only arise from a chain of merges)"),
+ "C11-6": ("TWO SITES: `insert_flat` made pub(crate) and used by a `deserialize_with` for OneOf variants (strips flags, splices nested unions)", "hand-built OneOf with an optional variant or a nested OneOf: comes back changed"),
+ "C11-7": ("Display prints a non-optional OneOf variant of a OneOf as its bare alternatives", "`OneOf[Boolean | OneOf[Number | String]]` prints like `OneOf[Boolean | Number | String]`"),
+ "C16-11": ("(written by the main session, not a sub-agent) `include_json_shape!` reads `<name>.gen.shapes.rs`", "any crate that really uses the macro: the suite never expands it; before this round the checks computed the macro's path instead of observing it"),
 }
 
 def main():
